@@ -3,6 +3,7 @@ import Proofs.C13.TwoLevel
 import Proofs.C13.Codec
 import Proofs.C13.Rs1024
 import Proofs.C13.Feistel
+import Proofs.C13.FeistelWrong
 import Proofs.C13.Gf256Field
 import Proofs.C13.Lengths
 /-
@@ -277,17 +278,18 @@ theorem table_entries {α : Type} [DecidableEq α] (o : FOps α) (digest : List 
 /-- the word-index encoding of a table entry -/
 def encShare (sh : Share GF256) : List Nat := (shareIndexes (fromGF sh)).getD []
 
-/-- **T6 ∘ T5 ∘ T4 at sentence level**: `mnemonics_from_master_secret` succeeds on valid inputs, and every
-    admissible selection of its sentences, in any order, is turned back into the master secret by
-    `master_secret_from_mnemonics` under the same passphrase. -/
-theorem masterSecretFromMnemonics_mnemonicsFromMasterSecret
-    (hm : Bytes → Bytes → Bytes) (RF : Nat → Nat → Bool → Nat → Bytes → Bytes)
+/-- **T6 ∘ T5 at sentence level, the decryption left open**: `mnemonics_from_master_secret` succeeds on valid inputs
+    (passphrase `pw`, round function `RF`), and for every admissible selection of its sentences, in any order,
+    `master_secret_from_mnemonics` under ANY valid passphrase `pw'` / round function `RF'` answers with the decryption
+    under `RF'` of the encrypted master secret the generator made under `RF`. -/
+theorem masterSecretFromMnemonics_mnemonicsFromMasterSecret_any
+    (hm : Bytes → Bytes → Bytes) (RF RF' : Nat → Nat → Bool → Nat → Bytes → Bytes)
     (hRF : ∀ e id ext i r, (RF e id ext i r).length = r.length)
     (hhm : ∀ k m, DIGEST_BYTES ≤ (hm k m).length)
-    (pw ms : Bytes) (groups : List (Nat × Nat)) (gt e : Nat) (ext : Bool) (idBytes : Bytes)
+    (pw pw' ms : Bytes) (groups : List (Nat × Nat)) (gt e : Nat) (ext : Bool) (idBytes : Bytes)
     (groupRnd : List (List GF256)) (groupRp : List GF256)
     (memberRnd : Nat → List (List GF256)) (memberRp : Nat → List GF256)
-    (hpw : validPassphrase pw = true) (hms : validLength ms.length = true) (he : e < 16)
+    (hpw : validPassphrase pw = true) (hpw' : validPassphrase pw' = true) (hms : validLength ms.length = true) (he : e < 16)
     (hadm : groupsAdmissible groups = true)
     (h0 : 0 < gt) (h1 : gt ≤ groups.length) (h2 : groups.length ≤ 16)
     (hgs : ∀ g ∈ groups, 0 < g.1 ∧ g.1 ≤ g.2 ∧ g.2 ≤ 16)
@@ -296,21 +298,25 @@ theorem masterSecretFromMnemonics_mnemonicsFromMasterSecret
     (hmr : ∀ g, g < groups.length → 2 ≤ (groups.getD g (0, 0)).1 →
       (memberRnd g).length = (groups.getD g (0, 0)).1 - 2 ∧ (∀ r ∈ memberRnd g, r.length = ms.length) ∧
       (memberRp g).length + DIGEST_BYTES = ms.length) :
-    ∃ sentences,
+    ∃ sentences ems,
       mnemonicsFromMasterSecret hm RF pw ms groups gt e ext idBytes groupRnd groupRp memberRnd memberRp
         = .ok sentences ∧
+      feistel (RF e (ofBE idBytes &&& ((1 <<< ID_BITS) - 1)) ext) ms false = some ems ∧ ems.length = ms.length ∧
       ∀ sel : List (Nat × Nat), sel ≠ [] → sel.Nodup →
         (∀ p ∈ sel, p.1 < groups.length ∧ p.2 < (groups.getD p.1 (0, 0)).2) →
         (sel.map (·.1)).eraseDups.length = gt →
         (∀ g ∈ sel.map (·.1), (sel.filter (·.1 = g)).length = (groups.getD g (0, 0)).1) →
         ∃ chosen, sel.mapM (fun p => (sentences.getD p.1 [])[p.2]?) = some chosen ∧
-          masterSecretFromMnemonics hm RF pw chosen = .ok ms := by
+          masterSecretFromMnemonics hm RF' pw' chosen =
+            match feistel (RF' e (ofBE idBytes &&& ((1 <<< ID_BITS) - 1)) ext) ems true with
+            | none => .error (.slip .feistel)
+            | some ms' => .ok ms' := by
   have hmask : (1 <<< ID_BITS) - 1 = 32767 := by decide
   obtain ⟨identifier, hidd⟩ : ∃ i, i = ofBE idBytes &&& ((1 <<< ID_BITS) - 1) := ⟨_, rfl⟩
   have hid : identifier ≤ 32767 := by rw [hidd, hmask]; exact Nat.and_le_right
   have hms' : 16 ≤ ms.length ∧ ms.length % 2 = 0 := by
     simpa [validLength, MIN_SECRET_BYTES] using hms
-  obtain ⟨ems, hems, hemsl, hdec⟩ :=
+  obtain ⟨ems, hems, hemsl, _⟩ :=
     feistel_decrypt_encrypt (RF e identifier ext) (hRF e identifier ext) ms hms'.2
   have hdl := digestGF_length hm hhm
   have hl : (ems.map GF256.ofByte).length = ms.length := by rw [List.length_map, hemsl]
@@ -340,7 +346,7 @@ theorem masterSecretFromMnemonics_mnemonicsFromMasterSecret
   have hsent : table.mapM (fun row => row.mapM fun sh => shareIndexes (fromGF sh)) =
       some (table.map fun row => row.map encShare) :=
     mapM_option_some _ _ _ fun row hr => mapM_option_some _ _ _ fun sh hs => (henc row hr sh hs).1
-  refine ⟨table.map fun row => row.map encShare, ?_, ?_⟩
+  refine ⟨table.map fun row => row.map encShare, ems, ?_, by rw [← hidd]; exact hems, hemsl, ?_⟩
   · unfold mnemonicsFromMasterSecret
     rw [if_neg (by simp [hpw]), if_neg (by simp [hms]), if_neg (by simpa [E_BITS] using he),
       if_neg (by simp [hadm])]
@@ -382,7 +388,7 @@ theorem masterSecretFromMnemonics_mnemonicsFromMasterSecret
         obtain ⟨row, hrow, hmem⟩ := hpt first (List.mem_cons_self ..)
         obtain ⟨a1, a2, a3, _⟩ := hent row hrow first hmem
         unfold masterSecretFromMnemonics
-        rw [if_neg (by simp [hpw])]
+        rw [if_neg (by simp [hpw'])]
         unfold masterSecret
         rw [hdecode]
         simp only [List.map_cons]
@@ -395,12 +401,106 @@ theorem masterSecretFromMnemonics_mnemonicsFromMasterSecret
           exact toGF_fromGF s
         rw [htg, hrec]
         simp only [map_toByte_ofByte]
-        have hF : (fun i r => RF (fromGF first).iterationExponent (fromGF first).identifier
-            (fromGF first).extendable i r) = RF e identifier ext := by
+        have hF : (fun i r => RF' (fromGF first).iterationExponent (fromGF first).identifier
+            (fromGF first).extendable i r) = RF' e identifier ext := by
           funext i r
-          show RF first.iterationExponent first.identifier first.extendable i r = _
+          show RF' first.iterationExponent first.identifier first.extendable i r = _
           rw [a1, a2, a3]
-        simp only [hF, hdec]
+        simp only [hF, ← hidd]
+        cases feistel (RF' e identifier ext) ems true <;> rfl
+
+/-- **T6 ∘ T5 ∘ T4 at sentence level**: `mnemonics_from_master_secret` succeeds on valid inputs, and every
+    admissible selection of its sentences, in any order, is turned back into the master secret by
+    `master_secret_from_mnemonics` under the same passphrase. -/
+theorem masterSecretFromMnemonics_mnemonicsFromMasterSecret
+    (hm : Bytes → Bytes → Bytes) (RF : Nat → Nat → Bool → Nat → Bytes → Bytes)
+    (hRF : ∀ e id ext i r, (RF e id ext i r).length = r.length)
+    (hhm : ∀ k m, DIGEST_BYTES ≤ (hm k m).length)
+    (pw ms : Bytes) (groups : List (Nat × Nat)) (gt e : Nat) (ext : Bool) (idBytes : Bytes)
+    (groupRnd : List (List GF256)) (groupRp : List GF256)
+    (memberRnd : Nat → List (List GF256)) (memberRp : Nat → List GF256)
+    (hpw : validPassphrase pw = true) (hms : validLength ms.length = true) (he : e < 16)
+    (hadm : groupsAdmissible groups = true)
+    (h0 : 0 < gt) (h1 : gt ≤ groups.length) (h2 : groups.length ≤ 16)
+    (hgs : ∀ g ∈ groups, 0 < g.1 ∧ g.1 ≤ g.2 ∧ g.2 ≤ 16)
+    (hgr : 2 ≤ gt → groupRnd.length = gt - 2 ∧ (∀ r ∈ groupRnd, r.length = ms.length) ∧
+      groupRp.length + DIGEST_BYTES = ms.length)
+    (hmr : ∀ g, g < groups.length → 2 ≤ (groups.getD g (0, 0)).1 →
+      (memberRnd g).length = (groups.getD g (0, 0)).1 - 2 ∧ (∀ r ∈ memberRnd g, r.length = ms.length) ∧
+      (memberRp g).length + DIGEST_BYTES = ms.length) :
+    ∃ sentences,
+      mnemonicsFromMasterSecret hm RF pw ms groups gt e ext idBytes groupRnd groupRp memberRnd memberRp
+        = .ok sentences ∧
+      ∀ sel : List (Nat × Nat), sel ≠ [] → sel.Nodup →
+        (∀ p ∈ sel, p.1 < groups.length ∧ p.2 < (groups.getD p.1 (0, 0)).2) →
+        (sel.map (·.1)).eraseDups.length = gt →
+        (∀ g ∈ sel.map (·.1), (sel.filter (·.1 = g)).length = (groups.getD g (0, 0)).1) →
+        ∃ chosen, sel.mapM (fun p => (sentences.getD p.1 [])[p.2]?) = some chosen ∧
+          masterSecretFromMnemonics hm RF pw chosen = .ok ms := by
+  obtain ⟨sentences, ems, hgen, hems, _, hsel⟩ := masterSecretFromMnemonics_mnemonicsFromMasterSecret_any hm RF RF
+    hRF hhm pw pw ms groups gt e ext idBytes groupRnd groupRp memberRnd memberRp hpw hpw hms he hadm h0 h1 h2 hgs
+    hgr hmr
+  have hms' : ms.length % 2 = 0 := by
+    have : 16 ≤ ms.length ∧ ms.length % 2 = 0 := by simpa [validLength, MIN_SECRET_BYTES] using hms
+    exact this.2
+  obtain ⟨c, hc, _, hdec⟩ := feistel_decrypt_encrypt (RF e (ofBE idBytes &&& ((1 <<< ID_BITS) - 1)) ext)
+    (hRF _ _ _) ms hms'
+  rw [hems] at hc
+  have hce : ems = c := Option.some.inj hc
+  subst hce
+  refine ⟨sentences, hgen, ?_⟩
+  intro sel hne hnd hrange hgroups hmembers
+  obtain ⟨chosen, hch, hrec⟩ := hsel sel hne hnd hrange hgroups hmembers
+  exact ⟨chosen, hch, by rw [hrec, hdec]⟩
+
+/-- **wrong passphrase**: the same selection under ANOTHER valid passphrase / round function is never refused; it
+    yields a secret of the same length, which is the master secret exactly when the other round function encrypts
+    the master secret to the very ciphertext the right one made (Feistel injectivity; that PBKDF2 under two different
+    passphrases does not do that is the cryptographic assumption, tested by the oracle `slip39.set`). -/
+theorem masterSecretFromMnemonics_wrong_passphrase
+    (hm : Bytes → Bytes → Bytes) (RF RF' : Nat → Nat → Bool → Nat → Bytes → Bytes)
+    (hRF : ∀ e id ext i r, (RF e id ext i r).length = r.length)
+    (hRF' : ∀ e id ext i r, (RF' e id ext i r).length = r.length)
+    (hhm : ∀ k m, DIGEST_BYTES ≤ (hm k m).length)
+    (pw pw' ms : Bytes) (groups : List (Nat × Nat)) (gt e : Nat) (ext : Bool) (idBytes : Bytes)
+    (groupRnd : List (List GF256)) (groupRp : List GF256)
+    (memberRnd : Nat → List (List GF256)) (memberRp : Nat → List GF256)
+    (hpw : validPassphrase pw = true) (hpw' : validPassphrase pw' = true)
+    (hms : validLength ms.length = true) (he : e < 16)
+    (hadm : groupsAdmissible groups = true)
+    (h0 : 0 < gt) (h1 : gt ≤ groups.length) (h2 : groups.length ≤ 16)
+    (hgs : ∀ g ∈ groups, 0 < g.1 ∧ g.1 ≤ g.2 ∧ g.2 ≤ 16)
+    (hgr : 2 ≤ gt → groupRnd.length = gt - 2 ∧ (∀ r ∈ groupRnd, r.length = ms.length) ∧
+      groupRp.length + DIGEST_BYTES = ms.length)
+    (hmr : ∀ g, g < groups.length → 2 ≤ (groups.getD g (0, 0)).1 →
+      (memberRnd g).length = (groups.getD g (0, 0)).1 - 2 ∧ (∀ r ∈ memberRnd g, r.length = ms.length) ∧
+      (memberRp g).length + DIGEST_BYTES = ms.length) :
+    ∃ sentences ms',
+      mnemonicsFromMasterSecret hm RF pw ms groups gt e ext idBytes groupRnd groupRp memberRnd memberRp
+        = .ok sentences ∧ ms'.length = ms.length ∧
+      (ms' = ms ↔ feistel (RF' e (ofBE idBytes &&& ((1 <<< ID_BITS) - 1)) ext) ms false =
+                   feistel (RF e (ofBE idBytes &&& ((1 <<< ID_BITS) - 1)) ext) ms false) ∧
+      ∀ sel : List (Nat × Nat), sel ≠ [] → sel.Nodup →
+        (∀ p ∈ sel, p.1 < groups.length ∧ p.2 < (groups.getD p.1 (0, 0)).2) →
+        (sel.map (·.1)).eraseDups.length = gt →
+        (∀ g ∈ sel.map (·.1), (sel.filter (·.1 = g)).length = (groups.getD g (0, 0)).1) →
+        ∃ chosen, sel.mapM (fun p => (sentences.getD p.1 [])[p.2]?) = some chosen ∧
+          masterSecretFromMnemonics hm RF' pw' chosen = .ok ms' := by
+  obtain ⟨sentences, ems, hgen, hems, _, hsel⟩ := masterSecretFromMnemonics_mnemonicsFromMasterSecret_any hm RF RF'
+    hRF hhm pw pw' ms groups gt e ext idBytes groupRnd groupRp memberRnd memberRp hpw hpw' hms he hadm h0 h1 h2 hgs
+    hgr hmr
+  have hms' : ms.length % 2 = 0 := by
+    have : 16 ≤ ms.length ∧ ms.length % 2 = 0 := by simpa [validLength, MIN_SECRET_BYTES] using hms
+    exact this.2
+  obtain ⟨c, m', hc, hm', hml, hiff⟩ := feistel_wrong_key (RF e (ofBE idBytes &&& ((1 <<< ID_BITS) - 1)) ext)
+    (RF' e (ofBE idBytes &&& ((1 <<< ID_BITS) - 1)) ext) (hRF _ _ _) (hRF' _ _ _) ms hms'
+  rw [hems] at hc
+  have hce : ems = c := Option.some.inj hc
+  subst hce
+  refine ⟨sentences, m', hgen, hml, by rw [hems]; exact hiff, ?_⟩
+  intro sel hne hnd hrange hgroups hmembers
+  obtain ⟨chosen, hch, hrec⟩ := hsel sel hne hnd hrange hgroups hmembers
+  exact ⟨chosen, hch, by rw [hrec, hm']⟩
 
 /-- the same with the functions the driver runs: HMAC-SHA256 digest and the PBKDF2-HMAC-SHA256 round function
     (their length hypotheses are theorems of `Proofs/C13/Lengths.lean`) -/
